@@ -410,7 +410,7 @@ pub fn run(ctx: &Ctx, rep: &mut Report) {
         rep,
         ctx,
         "facade:to_string_with_options",
-        ctx.n(600_000, 60_000_000),
+        ctx.n(600_000, 12_000_000),
         move || {
             (0..nf, 0u8..7, any::<u16>())
                 .prop_flat_map(move |(fmt, ty, _)| {
@@ -436,7 +436,7 @@ pub fn run(ctx: &Ctx, rep: &mut Report) {
         rep,
         ctx,
         "facade:parse-entry-points",
-        ctx.n(600_000, 60_000_000),
+        ctx.n(600_000, 12_000_000),
         move || {
             (0..nf, 0u8..6)
                 .prop_flat_map(move |(fmt, ty)| {
@@ -502,7 +502,7 @@ pub fn run(ctx: &Ctx, rep: &mut Report) {
         rep,
         ctx,
         "ascii-only:all-writers",
-        ctx.n(1_000_000, 100_000_000),
+        ctx.n(1_000_000, 20_000_000),
         move || {
             let w = w2.clone();
             any::<u16>()
@@ -530,7 +530,7 @@ pub fn run(ctx: &Ctx, rep: &mut Report) {
         rep,
         ctx,
         "ascii-only:raw-options-the-library-accepts",
-        ctx.n(400_000, 40_000_000),
+        ctx.n(400_000, 8_000_000),
         move || {
             let ns = crate::c18::strs().len();
             let punct = || prop_oneof![3 => prop_oneof![Just(b'e'), Just(b'.'), Just(b','), Just(b'^'), Just(b' '), Just(b'\t'), Just(b'~'), Just(b'p')], 2 => any::<u8>(), 1 => 0x7eu8..=0x82];
